@@ -64,6 +64,17 @@ PollSendProgram(role, w, len, split) ==
                Send("s0", 4, 4, "data"), Ready("s0", 50), [op |-> "a_poll_send", s |-> "s0", len |-> 3, tag |-> 5],
                O("a_finish", "s0"), [op |-> "p_read_to_end", s |-> "s0", n |-> 1000]>>]
 
+\* poll_send while a unit handed over with send_data is unfinished and the peer's credit has come back: the new write has to be refused
+\* (the adapter refuses by panicking: accepted by C17_Trace) and must never land inside the unfinished frame
+UnframedDuringUnit(role, split, len, readn) ==
+    [fam |-> "UI", a_role |-> role, win |-> Win(64), idle_ms |-> 0,
+     ops |-> <<[op |-> "a_open_bidi", s |-> "s0", split |-> split, via |-> "opener"],
+               Send("s0", len, 1, "data"), O("a_ready_once", "s0"),
+               [op |-> "p_read", s |-> "s0", n |-> readn], [op |-> "sleep", ms |-> 30],
+               [op |-> "a_poll_send", s |-> "s0", len |-> 4, tag |-> 2],
+               Ready("s0", 50), [op |-> "a_poll_send", s |-> "s0", len |-> 3, tag |-> 3],
+               O("a_finish", "s0"), [op |-> "p_read_to_end", s |-> "s0", n |-> 1000]>>]
+
 (* ---- receive programs ---- *)
 \* how the stream the adapter reads from comes to exist
 OpenForRecv(opener, kind, split) ==
@@ -143,6 +154,7 @@ Next == /\ out = <<>>
                  /\ out' = SendProgram(role, "bidi", TRUE, w, units)
            \/ \E role \in Roles, w \in Windows, l1 \in Lens, l2 \in Lens : out' = TwoStreams(role, w, l1, l2)
            \/ \E role \in Roles, w \in Windows, len \in Lens \ {0}, split \in BOOLEAN : out' = PollSendProgram(role, w, len, split)
+           \/ \E role \in Roles, split \in BOOLEAN, len \in {300, 4000}, readn \in {40, 64} : out' = UnframedDuringUnit(role, split, len, readn)
            \/ \E role \in Roles, opener \in {"a", "p"}, kind \in {"bidi", "uni"}, split \in BOOLEAN, ending \in Endings, code \in Codes, pf \in BOOLEAN :
                  /\ (kind = "uni" => split /\ opener = "p")
                  /\ (ending = "fin" => code = FromInt(0))
